@@ -105,8 +105,9 @@ class ControlLine(Node):
 
         cases = {
             "if": {"else", "elif"},
-            "try": {"except", "finally"},
+            "try": {"except", "else", "finally"},
             "for": {"else"},
+            "while": {"else"},
         }
 
         return keyword in cases.get(self.keyword, set())
